@@ -1433,12 +1433,22 @@ func (in *Interp) materialise(m *Mem, o *Object, p Path, t types.Type) *Term {
 	}
 	// too large or not an aggregate: opaque, but identity-carrying
 	var sb strings.Builder
+	var mix []MixCell
 	for _, c := range m.sortedCells(o) {
 		if isPrefix(p, c.path) {
 			sb.WriteString(c.path.String() + "=" + c.val.Key() + ";")
+			mix = append(mix, MixCell{Rel: append(Path{}, c.path[len(p):]...), Val: c.val})
 		}
 	}
-	return Atom("mixed:"+o.ID+p.String()+"{"+sb.String()+"}", t)
+	a := Atom("mixed:"+o.ID+p.String()+"{"+sb.String()+"}", t)
+	if o.Kind == "alloc" {
+		// a local is zero-initialised: the listed cells describe the value completely
+		a.Mix = mix
+		if a.Mix == nil {
+			a.Mix = []MixCell{}
+		}
+	}
+	return a
 }
 
 func (in *Interp) storePtr(fr *Frame, site ssa.Instruction, m *Mem, a, v *Term) {
@@ -1458,6 +1468,21 @@ func (in *Interp) storePtr(fr *Frame, site ssa.Instruction, m *Mem, a, v *Term) 
 	}
 	j := p.hasSym()
 	if j < 0 {
+		if v != nil && v.Op == "atom" && v.Mix != nil {
+			// whole-value copy of a large, partly initialised aggregate: zero, then the initialised parts
+			t := typeAt(o.T, p)
+			m.store(o, p, Zero(t))
+			for _, mc := range v.Mix {
+				if len(mc.Rel) == 0 {
+					continue
+				}
+				m.store(o, append(append(Path{}, p...), mc.Rel...), mc.Val)
+			}
+			return
+		}
+		if v != nil && v.Op == "agg" && in.storeAgg(m, o, p, v) {
+			return
+		}
 		m.store(o, p, v)
 		return
 	}
@@ -1482,6 +1507,46 @@ func (in *Interp) storePtr(fr *Frame, site ssa.Instruction, m *Mem, a, v *Term) 
 	} else {
 		m.store(o, arrPath, &Term{Op: "updf", Name: Path(rest).String(), Args: []*Term{arr, p[j].Sym, v}, T: arr.T})
 	}
+}
+
+// storeAgg stores an aggregate value component by component (recursively), so that the memory looks the same
+// whether the program initialised the variable in place or built the value in a temporary and copied it.
+func (in *Interp) storeAgg(m *Mem, o *Object, p Path, v *Term) bool {
+	t := typeAt(o.T, p)
+	if t == nil {
+		return false
+	}
+	switch u := t.Underlying().(type) {
+	case *types.Struct:
+		if u.NumFields() != len(v.Args) {
+			return false
+		}
+		m.store(o, p, v) // drops finer cells
+		delete(m.objs[o.ID], p.String())
+		for i, a := range v.Args {
+			cp := append(append(Path{}, p...), PathElem{Field: i})
+			if a != nil && a.Op == "agg" && in.storeAgg(m, o, cp, a) {
+				continue
+			}
+			m.store(o, cp, a)
+		}
+		return true
+	case *types.Array:
+		if int(u.Len()) != len(v.Args) || u.Len() > 64 {
+			return false
+		}
+		m.store(o, p, v)
+		delete(m.objs[o.ID], p.String())
+		for i, a := range v.Args {
+			cp := append(append(Path{}, p...), PathElem{Field: -1, Index: int64(i)})
+			if a != nil && a.Op == "agg" && in.storeAgg(m, o, cp, a) {
+				continue
+			}
+			m.store(o, cp, a)
+		}
+		return true
+	}
+	return false
 }
 
 // havoc forgets everything reachable through pointer/slice arguments.
